@@ -164,7 +164,7 @@ def prefix_replay_once(cand):
     outfile = os.path.join(outdir, "out.txt")
     cmd = [binary_path(cand["tag"], cand["variant"]), "--driver", cand["driver"],
            "--space", cand["space"], "--shard", cand["shard"], "--out", outfile,
-           "--only-until", str(cand["index"])]
+           "--only-until", str(cand["index"]), "--max-cands", "100000000"]
     if cand.get("props"):
         cmd += ["--props", cand["props"]]
     if cand.get("extra"):
